@@ -5,7 +5,9 @@ package props
 import (
 	"bytes"
 	"fmt"
+	"io"
 	"os"
+	"testing/iotest"
 	"time"
 
 	"github.com/foxboron/go-uefi/efi/signature"
@@ -140,6 +142,25 @@ func c10Auth(c *hx.Ctx, in, payload []byte, class string) {
 		v2.AuthInfo.Header.CertType != v.AuthInfo.Header.CertType || v2.AuthInfo.CertType != v.AuthInfo.CertType || !bytes.Equal(v2.AuthInfo.CertData, v.AuthInfo.CertData) {
 		bad("decode(encode(v)) differs from v", map[string]any{})
 		return
+	}
+	// a plain io.Reader (no ReadByte, like a file or a network stream) and readers that portion the
+	// data differently: exactly 16+dwLength bytes may be taken from the caller's reader
+	for ri, mk := range []func(io.Reader) io.Reader{func(r io.Reader) io.Reader { return struct{ io.Reader }{r} }, iotest.OneByteReader, iotest.DataErrReader} {
+		under := bytes.NewReader(full)
+		var v4 *signature.EFIVariableAuthentication2
+		if p := hx.Try(func() { v4, err = signature.ReadEFIVariableAuthencation2(mk(under)) }); p != nil || err != nil {
+			bad("decoding from a plain io.Reader fails", map[string]any{"reader": ri, "error": fmt.Sprint(err, p)})
+			return
+		}
+		rest, _ := io.ReadAll(under)
+		if !bytes.Equal(rest, payload) && ri != 2 { // DataErrReader may legitimately prefetch one read
+			bad("decoding from a plain io.Reader takes more than 16+dwLength bytes from it", map[string]any{"reader": ri, "left": len(rest), "payload": len(payload)})
+			return
+		}
+		if !bytes.Equal(v4.AuthInfo.CertData, want.CertData) {
+			bad("decoding from a plain io.Reader yields other certificate data", map[string]any{"reader": ri})
+			return
+		}
 	}
 	// same through a *bytes.Buffer (the reader the efivarfs layer hands to Unmarshal), whose
 	// storage is overwritten afterwards: consumed length, payload and the decoded value must not change
